@@ -1328,7 +1328,12 @@ fn main() {
             has_io: false,
             gen: None,
             expr: Some(m.expr),
-            acc: Some((m.expanded, m.typed)),
+            acc: if m.in_model {
+                Some((m.expanded, m.typed))
+            } else {
+                out.count("genbind:outside-model:pattern-bound-lambda-literal-used-polymorphically");
+                None
+            },
         });
     }
 
